@@ -74,10 +74,29 @@ def run(ck):
             sizes = [p['size'] for p in r['hist']['pkts']]
             ck.violation('bitstream_buffer_overflow:%dx%d' % (a['w'], a['h']), 'incompressible %dx%d content at qp 0: the encoder %s (packets of %s bytes against a bitstream buffer of %d bytes)' % (a['w'], a['h'], r['outcome'], sizes, 2000000 if a['w'] * a['h'] < 1497600 else 3000000),
                          dict(scenario=a, cmd=r.get('cmd'), packet_sizes=sizes), True)
-    ck.cov['traces_validated_against_impl'] = len(runs) + len(big)
+    # prediction-structure space on the release build under a watchdog: layers x logical processors (1 and 2 allocate exactly the
+    # minimum pool sizes) x intra period / refresh type x overlays x stream lengths that end inside a mini-GOP
+    P = lambda n, **f: dict(w=128, h=64, n=n, content=2, bits=8, decode=0, recon=0, **{'f:' + k: v for k, v in dict(enc_mode=8, **f).items()})
+    struct = [P(100, hierarchical_levels=5, logical_processors=1), P(100, hierarchical_levels=5, logical_processors=2, intra_period_length=63), P(90, hierarchical_levels=4, logical_processors=1, intra_period_length=47),
+              P(40, hierarchical_levels=4, intra_refresh_type=1, intra_period_length=17, enable_tpl_la=1), P(40, hierarchical_levels=3, intra_refresh_type=1, intra_period_length=17, enable_tpl_la=1),
+              P(40, hierarchical_levels=4, intra_refresh_type=1, intra_period_length=17, enable_tpl_la=0), P(60, hierarchical_levels=4, enable_overlays=1), P(40, hierarchical_levels=4, enable_overlays=1),
+              P(60, hierarchical_levels=3, enable_overlays=1)]
+    if ck.tier == 'thorough':
+        struct += [P(n, hierarchical_levels=hl, logical_processors=lp, intra_period_length=k, look_ahead_distance=lad) for hl in (3, 4, 5) for lp in (1, 2) for (n, k, lad) in ((150, -1, 0), (120, 63, 40), (130, 100, 120), (75, 31, 17))]
+        struct += [P(n, hierarchical_levels=hl, intra_refresh_type=1, intra_period_length=k, enable_tpl_la=t) for hl in (4, 5) for k in (16, 32, 100) for t in (0, 1) for n in (70,)]
+        struct += [P(n, hierarchical_levels=hl, enable_overlays=1, logical_processors=lp) for hl in (3, 4, 5) for lp in (0, 1) for n in (57, 60, 64, 120)]
+    sres = e2e.run_many(binp, stamp, struct, timeout=75, jobs=8)
+    for a, r in zip(struct, sres):
+        ck.evals += 1; ck.case(('structure', a.get('f:hierarchical_levels'), a.get('f:logical_processors', 0), a.get('f:intra_refresh_type', 2), a.get('f:enable_overlays', 0), a['n'] % 16))
+        if r['outcome'] == 'ok' and len(r['hist']['pkts']) == a['n']:
+            continue
+        cls = 'enable_overlays=1' if a.get('f:enable_overlays') else 'intra_refresh_type=1+enable_tpl_la=%d' % a.get('f:enable_tpl_la', 1) if a.get('f:intra_refresh_type') == 1 else 'hierarchical_levels=%d+logical_processors=%d' % (a.get('f:hierarchical_levels', 4), a.get('f:logical_processors', 0))
+        kind = 'hang' if r['outcome'] == 'timeout' else 'crash'
+        ck.violation('structure_%s:%s' % (kind, cls), 'the encode %s (%s; %d of %d packets): %s' % ('does not finish' if kind == 'hang' else 'crashes', r['outcome'], len(r['hist']['pkts']), a['n'], e2e.describe(a)), dict(scenario=a, cmd=r.get('cmd')), True)
+    ck.cov['traces_validated_against_impl'] = len(runs) + len(big) + len(struct)
     ck.sample(dict(scenario=e2e.describe({k: v for k, v in runs[0].items() if not k.startswith('env:')})))
     ck.cov['rule'] = 'ASan+UBSan sessions: noise at qp 0-4 in 8 and 10 bit (the most bytes per sample), extremes at qp 63, sizes that are not multiples of 8, flat, screen content, 128 superblocks, tiles, film grain, superres, portrait, VBR; release build: 1024x640 and 1600x900 noise at qp 0'
     br = ck.broken_obligations()
     if br and not ck.violations:
         ck.violation('obligation_broken', 'C11 proof/tie no longer checks: ' + '; '.join('%s (%s)' % (n_, d_[:200]) for n_, d_ in br[:3]), dict(broken=[dict(name=n_, detail=d_) for n_, d_ in br]), False)
-    ck.cov['explanation'] = '%d sanitizer sessions and %d large incompressible encodes' % (len(runs), len(big))
+    ck.cov['explanation'] = '%d sanitizer sessions, %d large incompressible encodes, %d prediction-structure sessions under a watchdog' % (len(runs), len(big), len(struct))
